@@ -5,7 +5,9 @@
 
    `walrev` selects the revision of the code: the three defects repaired by the
    fix: commit (replay order, growth not undone, empty write logged as truncation)
-   can each be switched back on for the refuted witnesses. *)
+   can each be switched back on for the refuted witnesses.  `recover` is recovery as in /repo;
+   `recover_g` is recovery with the position guard of fixes/C07-wal-position.diff (a record positioned
+   beyond the current end of the data file is an error); the checks pick the one the source tree has. *)
 From Agdb Require Import Bytes.
 Open Scope nat_scope.
 
@@ -127,7 +129,69 @@ Section Rev.
   (* FileStorage::new on the files left by a crash (also Drop with an open transaction) *)
   Definition recover (st : fstate) : fstate :=
     {| data := replay (records (wal st)) (data st); wal := [] |}.
+
+  (* ---- recovery with the position guard (fixes/C07-wal-position.diff) ----
+     apply_wal_record first compares the record's position with the CURRENT end of the data file
+     (file.seek(End(0)), i.e. the file as already modified by the records replayed before this one):
+     a position beyond it is an error, apply_wal stops with `?` and FileStorage::new returns it
+     (None; the log is not cleared). *)
+  Definition apply_rec_g (d : bytes) (r : nat * bytes) : option bytes :=
+    if Nat.ltb (length d) (fst r) then None else Some (apply_rec d r).
+
+  (* the records in the order they are applied *)
+  Fixpoint apply_all_g (rs : list (nat * bytes)) (d : bytes) : option bytes :=
+    match rs with
+    | [] => Some d
+    | r :: rest =>
+      match apply_rec_g d r with
+      | Some d' => apply_all_g rest d'
+      | None => None
+      end
+    end.
+
+  Definition replay_g (rs : list (nat * bytes)) (d : bytes) : option bytes :=
+    apply_all_g (if w_newest_first rv then rev rs else rs) d.
+
+  Definition recover_g (st : fstate) : option fstate :=
+    match replay_g (records (wal st)) (data st) with
+    | Some d => Some {| data := d; wal := [] |}
+    | None => None
+    end.
 End Rev.
+
+(* ---- recovery as a sequence of file-system calls (it can itself be interrupted) ----
+   FileStorage::new / Drop: WriteAheadLog::repair cuts a torn tail (one set_len, only when there is one);
+   apply_wal undoes the records newest first; wal.clear().
+     g = false: the code without the position guard: every record is applied, the log is cleared at the end.
+     g = true : fixes/C07-wal-position.diff: the guard is evaluated before each record (false = it fired:
+                apply_wal returns the error, nothing further is issued), and each record is REMOVED from the
+                log as soon as it has been undone (WriteAheadLog::remove_last: set_len to its start), so an
+                interrupted recovery never replays a record on top of the older ones that followed it. *)
+Definition rec_size (r : nat * bytes) : nat := 16 + length (snd r).
+Definition log_size (rs : list (nat * bytes)) : nat := list_sum (map rec_size rs).
+
+Definition undo_call (r : nat * bytes) : sys :=
+  match snd r with
+  | [] => DataSetLen (fst r)
+  | v => DataWrite (fst r) v
+  end.
+
+(* rr: the records newest first; d: the data they are applied to *)
+Fixpoint undo_calls (g : bool) (rr : list (nat * bytes)) (d : bytes) : list sys * bool :=
+  match rr with
+  | [] => ([], true)
+  | r :: rest =>
+    if g && Nat.ltb (length d) (fst r) then ([], false)
+    else
+      let '(cs, ok) := undo_calls g rest (apply_rec d r) in
+      (undo_call r :: (if g then [WalSetLen (log_size rest)] else []) ++ cs, ok)
+  end.
+
+Definition recovery_calls (g : bool) (st : fstate) : list sys * bool :=
+  let rs := records (wal st) in
+  let '(cs, ok) := undo_calls g (rev rs) (data st) in
+  ((if Nat.ltb (log_size rs) (length (wal st)) then [WalSetLen (log_size rs)] else []) ++
+   cs ++ (if ok then [WalSetLen 0] else []), ok).
 
 (* writes issued by the storage layer never start beyond the end of the file *)
 Fixpoint well_positioned (d : bytes) (ops : list op) : bool :=
